@@ -1702,7 +1702,7 @@ PROPS.update({
                 explanation="chunk deletion", assumptions=OS_ASSUMPTIONS),
     "C14": dict(modules=['C14', 'C14Busy'], theorems=['c14_worker_terminates_measure', 'c14_fuel_bound', 'c14_fuel_sufficient', 'c14_todoOK_reachable', 'c14_todoOK_invariant', 'c14_worker_terminates', 'c14_worker_terminates_any', 'c14_drop_state', 'c14_after_drop_nothing_moves', 'c14_drop_quiesces', 'c14_drop_none', 'c14_drop_quiesces_reachable', 'c14_drop_quiesces_system', 'c14_busy_drop_eq_idle_drop', 'c14_busy_drop_events', 'c14_busy_senderAlive', 'c14_busy_nothing_postponed', 'c14_busy_nothing_postponed_sync', 'c14_busy_postponed_invariant', 'c14_busy_restart_step', 'c14_busy_drop_then_open_idle', 'c14_busy_drop_then_open', 'c14_after_busy_drop_nothing_changes', 'c14_busy_refinement_continues', 'c14_busy_history_after_restart', 'c14_busy_failed_sync_needed'], gen=scripts_c14, project=proj_events, oracle=oracle_c14,
                 explanation="drop quiesces", assumptions=OS_ASSUMPTIONS),
-    "C07": dict(modules=["C07", "C07Trunc"], theorems=['c07t_appendsFresh_iff', 'c07t_readInv_spec', 'c07t_inv_fresh', 'c07t_inv_call', 'c07t_inv_truncate', 'c07t_inv_flush', 'c07t_inv_worker', 'c07t_inv_workerIdle', 'c07t_inv_drain', 'c07t_read_of_inv', 'c07t_resident_or_on_disk', 'c07t_inv_reachable', 'c07_reads_with_truncate', 'c07t_appendsFresh_of_noTruncate', 'c07_reads_partial_of_with_truncate', 'c07t_worker_steps_invisible', 'c07t_cache_limits_invisible'] + ['c07_refines_noCache', 'c07_refinesNoCache_step', 'c07_readInv_spec', 'c07_resident_or_on_disk', 'c07_boundary_written', 'c07_read_of_inv', 'c07_inv_fresh', 'c07_inv_call', 'c07_inv_flush', 'c07_inv_worker', 'c07_inv_workerIdle', 'c07_inv_drain', 'c07_inv_reachable', 'c07_reads_partial', 'c07_worker_steps_invisible', 'c07_cache_limits_invisible'], gen=scripts_c07, project=proj_c07, oracle=oracle_c07,
+    "C07": dict(modules=["C07", "C07Trunc", "C07Restart"], theorems=['c07_refines_noCache', 'c07_refinesNoCache_step', 'c07_readInv_spec', 'c07_resident_or_on_disk', 'c07_boundary_written', 'c07_read_of_inv', 'c07_inv_fresh', 'c07_inv_call', 'c07_inv_flush', 'c07_inv_worker', 'c07_inv_workerIdle', 'c07_inv_drain', 'c07_inv_reachable', 'c07_reads_partial', 'c07_worker_steps_invisible', 'c07_cache_limits_invisible', 'c07t_appendsFresh_iff', 'c07t_readInv_spec', 'c07t_inv_fresh', 'c07t_inv_call', 'c07t_inv_truncate', 'c07t_inv_flush', 'c07t_inv_worker', 'c07t_inv_workerIdle', 'c07t_inv_drain', 'c07t_read_of_inv', 'c07t_resident_or_on_disk', 'c07t_inv_reachable', 'c07_reads_with_truncate', 'c07t_appendsFresh_of_noTruncate', 'c07_reads_partial_of_with_truncate', 'c07t_worker_steps_invisible', 'c07t_cache_limits_invisible', 'c07r_readInv_spec', 'c07r_inv_fresh', 'c07r_inv_call', 'c07r_inv_flush', 'c07r_inv_worker', 'c07r_inv_workerIdle', 'c07r_inv_drain', 'c07r_inv_history', 'c07r_read_of_inv', 'c07_clean_restart_keeps_read_invariant', 'c07_clean_restart_reads', 'c07r_after_restart_resident_or_on_disk', 'c07r_appendsFresh_cycles', 'c07r_inv_cycles', 'c07_reads_across_restarts', 'c07_reads_with_truncate_of_across_restarts', 'c07r_reopen_cfgs_invisible', 'c07r_crashReadInv_spec', 'c07r_crashReadInv_fresh', 'c07r_crashReadInv_history', 'c07_crash_recovery_keeps_read_invariant', 'c07_reads_after_crash_recovery', 'c07_reads_after_recovery_continue', 'c07_reads_across_restarts_from'], gen=scripts_c07, project=proj_c07, oracle=oracle_c07,
                 explanation="reads independent of cache/worker", assumptions=OS_ASSUMPTIONS),
     "C02": dict(theorems=['c02_smApply_cache_free', 'c02_smApply_independent_of_cache', 'c02_replay_spec', 'c02_replay_fresh', 'c02_replay_call', 'c02_replay_flush', 'c02_replay_worker', 'c02_replay_workerIdle', 'c02_replay_drain', 'c02_replay_invariant', 'c02_linked_files', 'c02_restart_step', 'c02_clean_restart', 'c02_refinement_continues', 'c02_history_after_restart', 'c02_removed_needed', 'c02_cycles', 'c02_restart_refines', 'c02_cycles_refines'], gen=scripts_c02, project=proj_c02, oracle=oracle_c02,
                 explanation="clean restart equivalence", assumptions=OS_ASSUMPTIONS),
